@@ -30,7 +30,9 @@ def shapes(level):
 
 
 def base_values(n):
-    return [3 + (i % 4) for i in range(n)]
+    # deliberately NOT an affine function of the position (an under-constrained selector that only
+    # satisfies linear relations would go unnoticed on contents like 3,4,5,6)
+    return [(3, 7, 4, 9, 5, 8)[i % 6] for i in range(n)]
 
 
 def build_array(shape):
@@ -223,38 +225,38 @@ def _task(t):
         if len(g) > 1:
             hs = list(g.values())[:2]
             report("trace-depends-on-index-value", hs[0], "histories %s and %s (same shape) emit different constraint systems" % (list(hs[0]), list(hs[1])))
-    # ---- soundness: all witness choices
-    if shape[0] == "1d" and shape[1][0] <= 3:
-        L = shape[1][0]
-        for e in evs:
-            if e[1] != ("S",):
-                continue
-            i = e[2][0]
-            inb = 0 <= i < L
-            inst = _instance(shape, e, p, ign=not inb)
-            if inst is None:
-                continue
-            st["e2_instances"] += 1
-            try:
-                sols, undec, s = W.exact(inst.cons, inst.nvars, inst.fixed, p)
-            except W.Capped:
+    # ---- soundness: all witness choices (1-D and 2-D, every event with at least one secret index)
+    dims = shape[1]
+    for e in evs:
+        if "S" not in e[1]:
+            continue
+        if any(ik == "K" and not (0 <= i < d) for ik, i, d in zip(e[1], e[2], dims)):
+            continue                    # public index outside the bounds: plain IndexError, no system
+        inb = all(0 <= i < d for i, d in zip(e[2], dims))
+        inst = _instance(shape, e, p, ign=not inb)
+        if inst is None:
+            continue
+        st["e2_instances"] += 1
+        try:
+            sols, undec, s = W.exact(inst.cons, inst.nvars, inst.fixed, p)
+        except W.Capped:
+            st["undecided"] += 1
+            continue
+        st["nodes"] += s["nodes"]
+        if undec:
+            st["undecided"] += 1
+            continue
+        if not inb:
+            if sols:
+                report("out-of-range-index-provable", (e,), "index %s outside an array of shape %s: the emitted system "
+                       "has %d satisfying assignment families" % (list(e[2]), list(dims), len(sols)))
+            continue
+        for f in e2.classify(inst, sols):
+            if f["klass"] == "undecided-dependent":
                 st["undecided"] += 1
                 continue
-            st["nodes"] += s["nodes"]
-            if undec:
-                st["undecided"] += 1
-                continue
-            if not inb:
-                if sols:
-                    report("out-of-range-index-provable", (e,), "index %d outside an array of length %d: the emitted system "
-                           "has %d satisfying assignment families" % (i, L, len(sols)))
-                continue
-            for f in e2.classify(inst, sols):
-                if f["klass"] == "undecided-dependent":
-                    st["undecided"] += 1
-                    continue
-                report("access-not-unique", (e,), "%s: wire #%d can be proven to be something else than the honest result"
-                       % (f["klass"], f["wire_index"]))
+            report("access-not-unique", (e,), "%s: wire #%d can be proven to be something else than the honest result"
+                   % (f["klass"], f["wire_index"]))
     return {"st": st, "viols": viols}
 
 
@@ -274,7 +276,8 @@ def _instance(shape, e, p, ign):
     H.reset(bitlength=BITLEN)
     rt = H.rt
     arr, model = build_array(shape)
-    idx = rt.PrivVal(e[2][0])
+    idx = tuple(rt.PrivVal(i) if ik == "S" else i for ik, i in zip(e[1], e[2]))
+    idx = idx[0] if len(idx) == 1 else idx
     wv = rt.PrivVal(9) if (e[0] == "write" and e[3] == "S") else 9
     fixed = {i: H.R.vars[i - 1][1] % p for i in range(1, len(H.R.vars) + 1)}
     if ign:
